@@ -10,6 +10,9 @@
 
 def T(name, variant, *args, **kw):
     d = dict(name=name, harness='h_string.c', variant=variant, args=list(args) + ['prop=C12'])
+    if variant == 'asan':
+        # one line per UBSan report instead of a symbolised stack (the crash-probe children would spend ~70 ms on each)
+        d['env'] = {'UBSAN_OPTIONS': 'print_stacktrace=0'}
     d.update(kw)
     return d
 
@@ -17,7 +20,7 @@ PARTS = {
   'C12': {
     'quick': [
       T('string-ab5', 'base', 'alpha=2', 'maxlen=5'),
-      T('string-ab3-asan', 'asan', 'alpha=2', 'maxlen=3'),
+      T('string-ab4-asan', 'asan', 'alpha=2', 'maxlen=4'),
     ],
     'thorough': [
       T('string-abc5', 'base', 'alpha=3', 'maxlen=5'),
